@@ -5,58 +5,58 @@ _NOTE = ("Trusted: CPython, z3 5.1, CrossHair's models of str/int/list, the harn
 _P = ("solver-driven exhaustive enumeration of a bounded input space by the symx engine (z3 chooses and blocks each value combination; "
       "the unmodified Rich code runs on it and is compared with an independent reference)")
 CLAIMED["C01"] = ("symbolic execution (symx, z3 Int + exact rationals) of Table._calculate_column_widths/_collapse_widths/ratio_reduce/ratio_distribute with symbolic cell measurements and budget; " + _P + " for rendered trees",
- "Column-width solver: for all cell measurements <=200 and budgets <=240 (2 and 3 columns, 9 option sets; thorough also <=1500/2000) the widths never exceed the budget. Rendered catalogue of 57 trees: every width from the structural minimum to 60 (thorough 200).",
+ "Column-width solver: for all cell measurements <=200 and budgets <=240 (2 and 3 columns, 9 option sets; thorough also <=1500/2000) the widths never exceed the budget. Rendered catalogue of 57 trees: every width from the structural minimum to 60 (thorough 200). 3-col padded expanding option sets are decided for budgets <=24 / cells <=16 (z3 answers unknown above). A Text object shared between a title and ordinary content never produces an over-wide line.",
  _NOTE, "DESIGN.md 5 C01")
 CLAIMED["C02"] = (_P + " over word triples x separators x span grids x widths x justify x overflow x no_wrap, Text.wrap run natively",
- "divide_line decided for ALL strings up to length 4 (thorough 6) over a mixed-width alphabet (CrossHair, symbolic); Text.wrap exhaustively over word triples x separators x span grids (incl. identical-valued spans) x widths x 5 justify x 4 overflow x no_wrap.",
+ "divide_line decided for ALL strings up to length 4 (thorough 6) over a mixed-width alphabet (CrossHair, symbolic); Text.wrap exhaustively over word triples x separators x span grids (incl. identical-valued spans) x widths x 5 justify x 4 overflow x no_wrap. The segments the console renders for the same Text are compared per character as well (joined lines, not only wrap()'s lines).",
  _NOTE, "DESIGN.md 5 C02")
 CLAIMED["C03"] = (_P + "; emitted stream decoded by an independent SGR/OSC-8 terminal model",
- "For every colour system and console flag combination, styles with up to one (thorough: two) attributes, 8 colour kinds for fg/bg and a link: the bytes written decode to the segments' characters, attributes, down-converted colours and link, with no leak; the SGR attribute list for ALL 2^13 x 2^13 mask pairs symbolically (thorough); reuse of one Style object across colour / NO_COLOR consoles.",
+ "For every colour system and console flag combination, styles with up to one (thorough: two) attributes, 8 colour kinds for fg/bg and a link: the bytes written decode to the segments' characters, attributes, down-converted colours and link, with no leak; the SGR attribute list for ALL 2^13 x 2^13 mask pairs symbolically (thorough); reuse of one Style object across colour / NO_COLOR consoles. Combination of styles whose SGR strings are already cached; a console whose file is switched between terminal and non-terminal.",
  _NOTE, "DESIGN.md 5 C03")
 CLAIMED["C04"] = ("CrossHair symbolic execution of markup.render/escape (regex tokenizer on symbolic strings) against a hand-written scanner; " + _P + " for token documents",
- "escape round trip and scanner-model agreement for ALL strings up to length 5/4 over the syntax alphabet (symbolic); precedence of later-opened tags over every document of up to 5 (thorough 6) tokens.",
+ "escape round trip and scanner-model agreement for ALL strings up to length 5/4 over the syntax alphabet (symbolic); precedence of later-opened tags over every document of up to 5 (thorough 6) tokens. Expected styles are computed field by field (independent of Style.__add__), with a 'not bold' tag in the alphabet.",
  _NOTE, "DESIGN.md 5 C04")
 CLAIMED["C05"] = (_P + ": one inductive step per Text operation from a solver-chosen pre-state against a list-of-(char, tags) reference",
- "Every editing operation re-establishes len(text)==len(plain) and agreement with the reference from any catalogue pre-state and any argument inside/at/beyond the ends; histories follow by induction.",
+ "Every editing operation re-establishes len(text)==len(plain) and agreement with the reference from any catalogue pre-state and any argument inside/at/beyond the ends; histories follow by induction. Results of divide/split/copy/slice/+ are independent values (editing one never edits the other); negative pad counts followed by a further edit.",
  _NOTE, "DESIGN.md 5 C05")
 CLAIMED["C06"] = ("bounded symbolic execution of Style.__add__/__eq__/__hash__ over all 13-bit attribute masks (symx, z3 BitVec + uninterpreted hash); CrossHair for color(n)/rgb() parsing; solver-enumerated str/parse round trips",
- "Associativity, identity, right bias and hash consistency of every construction route for ALL attribute masks and all None/token combinations of colour, bgcolor, link; color(n), rgb(r,g,b) for all values; round trips for <=2 attributes x 10 colour spellings; all 256 colour names.",
+ "Associativity, identity, right bias and hash consistency of every construction route for ALL attribute masks and all None/token combinations of colour, bgcolor, link; color(n), rgb(r,g,b) for all values; round trips for <=2 attributes x 10 colour spellings; all 256 colour names. String form of derived styles (update_link, without_color, copy, +, chain, combine) with the source's definition cached first.",
  _NOTE + " hash() is an uninterpreted function in the symbolic run (S5); counterexamples are replayed with the real hash.", "DESIGN.md 5 C06")
 CLAIMED["C07"] = ("symbolic execution (symx) of the column-width solver with expand; " + _P + " for box rows and rendered ASCII-box tables",
- "expand => widths sum exactly to the budget for all measurements/budgets (2,3 columns); every box's border rows have the exact width; rendered tables (<=3 columns, <=3 rows) are rectangles showing every cell character in its own column.",
+ "expand => widths sum exactly to the budget for all measurements/budgets (2,3 columns); every box's border rows have the exact width; rendered tables (<=3 columns, <=3 rows) are rectangles showing every cell character in its own column. A table nested in a grid / no_wrap column / Panel / Padding renders exactly as on its own. 3-col padded expanding kernels decided for budgets <=24.",
  _NOTE, "DESIGN.md 5 C07")
 CLAIMED["C08"] = (_P + " over frame options and widths, rendered natively and compared with the child rendered alone",
- "Panel/Padding/Align/Rule/Bar/ProgressBar/Columns/Tree: exact rectangles, exact padding, child lines intact, exact rule width, item order, guide prefix, for every option combination and width inside the bounds.",
+ "Panel/Padding/Align/Rule/Bar/ProgressBar/Columns/Tree: exact rectangles, exact padding, child lines intact, exact rule width, item order, guide prefix, for every option combination and width inside the bounds. One ProgressBar rendered, updated and rendered again; rules on ascii-only consoles fill the width without blanks.",
  _NOTE, "DESIGN.md 5 C08")
 CLAIMED["C09"] = ("symbolic execution (symx) of Measurement.get/normalize/clamp and Table.__rich_measure__ with arbitrary raw measurements; CrossHair on Text.__rich_measure__ over symbolic strings; " + _P + " for render-at-measure",
- "0<=min<=max<=width for ANY raw measurement and width<=60; Text minimum/maximum equal widest word/line for all strings up to length 3 (thorough 5); rendering each catalogue tree at its reported min/max never overflows.",
+ "0<=min<=max<=width for ANY raw measurement and width<=60; Text minimum/maximum equal widest word/line for all strings up to length 3 (thorough 5); rendering each catalogue tree at its reported min/max never overflows. Text measured again after an in-place edit of equal length; Text options (justify x overflow x no_wrap) rendered at every width between the measured minimum and maximum.",
  _NOTE, "DESIGN.md 5 C09")
 CLAIMED["C10"] = (_P + ": single-threaded Live histories replayed on a VT100-subset screen model; exception injection at every render index / block position",
- "Reduced claim: every Live history of 2 (thorough 3) and every Progress history of 3 (thorough 4) operations + stop on a small terminal leaves exactly the printed lines and the current frame; an exception at every render index / block position restores cursor, redirection and hooks and leaves printed lines intact. No threads, no longer histories.",
+ "Reduced claim: every Live history of 2 (thorough 3) and every Progress history of 3 (thorough 4) operations + stop on a small terminal leaves exactly the printed lines and the current frame; an exception at every render index / block position restores cursor, redirection and hooks and leaves printed lines intact. No threads, no longer histories. Writes through the redirected sys.stdout/sys.stderr including a partial line pending at stop(); frames that render to no lines.",
  _NOTE + " Thread-related clauses are not applicable (see C11).", "DESIGN.md 5 C10")
 CLAIMED["C12"] = ("symbolic execution (symx, z3 Int + exact rationals, symbolic clock) of the real Progress/Task methods over solver-enumerated operation sequences",
- "Sequential histories only: every 2 (thorough 3) operation history over two tasks with symbolic amounts, totals and clock steps satisfies the accounting, percentage, finished/finish-time, speed and time-remaining clauses; track() for lengths 0..4.",
+ "Sequential histories only: every 2 (thorough 3) operation history over two tasks with symbolic amounts, totals and clock steps satisfies the accounting, percentage, finished/finish-time, speed and time-remaining clauses; track() for lengths 0..4. Tasks that keep advancing after stop_task (quick).",
  _NOTE + " Multi-thread clauses of the statement are outside the claim (C11).", "DESIGN.md 5 C12")
 CLAIMED["C13"] = ("bounded symbolic execution of rich.cells / rich.segment with z3 (symx over all code points; CrossHair over symbolic strings)",
- "Every code point 0..0x10FFFF decided symbolically against a linear scan of the width table; set_cell_size / chop_cells / segment shaping for all strings over a mixed-width alphabet up to a stated length and all sizes; cache transparency as an inductive step and with the real caches.",
+ "Every code point 0..0x10FFFF decided symbolically against a linear scan of the width table; set_cell_size / chop_cells / segment shaping for all strings over a mixed-width alphabet up to a stated length and all sizes; cache transparency as an inductive step and with the real caches. split_and_crop_lines with include_new_lines symbolic, all lines materialised before inspection.",
  _NOTE, "DESIGN.md 5 C13")
 CLAIMED["C14"] = ("CrossHair symbolic execution of Color.parse / markup.render / AnsiDecoder.decode with declared raises-sets over symbolic strings; " + _P + " for style token sequences, printed strings and catalogue renders",
- "Only documented exceptions for all template fillers up to the stated lengths; no exception from rendering/measuring/printing any catalogue tree at any width 1..40 (thorough 200).",
+ "Only documented exceptions for all template fillers up to the stated lengths; no exception from rendering/measuring/printing any catalogue tree at any width 1..40 (thorough 200). One styled object rendered repeatedly at different widths; control codes followed by styling (markup, assemble, append, decoder).",
  _NOTE, "DESIGN.md 5 C14")
 CLAIMED["C15"] = (_P + " over segment lists and API histories on a recording console; exports compared via the independent terminal model",
- "All 2 (thorough 3) segment lists / operation histories x colour system x terminal x NO_COLOR: export_text, export_html (both modes), styled export and capture agree with the file's visible text (incl. entity-shaped text, control segments); clear semantics.",
+ "All 2 (thorough 3) segment lists / operation histories x colour system x terminal x NO_COLOR: export_text, export_html (both modes), styled export and capture agree with the file's visible text (incl. entity-shaped text, control segments); clear semantics. A capture left by an exception followed by ordinary output and another capture; the styled export of repeated prints with shared Style objects.",
  _NOTE, "DESIGN.md 5 C15")
 CLAIMED["C16"] = (_P + " over a value catalogue x max_width x indent x expand_all x max_length x max_string",
- "For 74 catalogue values: eval round trip, repr equality when it fits, token order, layout rules with max_width SYMBOLIC over 1..1,000,000 (each path = one layout for a whole interval of widths); exact abbreviation counts, shared-object and cycle handling, for every option value in the bounds.",
+ "For 74 catalogue values: eval round trip, repr equality when it fits, token order, layout rules with max_width SYMBOLIC over 1..1,000,000 (each path = one layout for a whole interval of widths); exact abbreviation counts, shared-object and cycle handling, for every option value in the bounds. One Pretty object measured and rendered at a sequence of widths; float arrays of three and more items.",
  _NOTE, "DESIGN.md 5 C16")
 CLAIMED["C18"] = ("symbolic execution of Color.downgrade / Palette.match / get_ansi_codes with z3 (Float64 semantics for truecolor->256, BitVec for the weighted metric)",
- "For all 2^24 colours: conversion to 16-colour palettes is in gamut, idempotent, order-independent and minimal under the documented metric; all 256 indexed colours; SGR parameters for every colour kind. Truecolor->256 with exact IEEE semantics: greys (quick), all 2^24 colours (thorough).",
+ "For all 2^24 colours: conversion to 16-colour palettes is in gamut, idempotent, order-independent and minimal under the documented metric; all 256 indexed colours; SGR parameters for every colour kind. Truecolor->256 with exact IEEE semantics: greys (quick), all 2^24 colours (thorough). Conversion histories with the real caches (converted colours converted again; neighbouring colours matched in sequence).",
  _NOTE + " L2: sqrt replaced by an order-isomorphic stub.", "DESIGN.md 5 C18")
 CLAIMED["C19"] = (_P + " for encode->decode round trips and FileProxy write/flush sequences; CrossHair for the decoder's colour arithmetic on symbolic decimal text",
- "Round trip of every style in the bounds through a truecolor console and AnsiDecoder; 38;5;n / 48;5;n for all n and 38;2;r;g;b one channel at a time symbolically; every 3 (thorough 4) token stream cut at two arbitrary offsets through FileProxy.",
+ "Round trip of every style in the bounds through a truecolor console and AnsiDecoder; 38;5;n / 48;5;n for all n and 38;2;r;g;b one channel at a time symbolically; every 3 (thorough 4) token stream cut at two arbitrary offsets through FileProxy. Decoder state over sequences of SGR and OSC 8 tokens across lines, directly and through a FileProxy; repeated prints of nested spans.",
  _NOTE, "DESIGN.md 5 C19")
 CLAIMED["C20"] = ("symbolic execution (symx) of ThemeStack.push_theme/pop_theme as an inductive step with symbolic presence flags and opaque values; " + _P + " for Console histories and config round trips",
- "Any stack of 1-2 entries x any pushed theme over 3 names x inherit: lookups after push/pop as specified (induction gives any history); real Console histories of 2 (thorough 3) push/pop/use_theme operations incl. exceptions; config round trip.",
+ "Any stack of 1-2 entries x any pushed theme over 3 names x inherit: lookups after push/pop as specified (induction gives any history); real Console histories of 2 (thorough 3) push/pop/use_theme operations incl. exceptions; config round trip. use_theme context objects entered more than once; several config round trips in one process.",
  _NOTE, "DESIGN.md 5 C20")
 NA["C11"] = "quantifies over thread schedules of the real console/live code; no engine here can make the schedule a solver variable (DESIGN.md 6)"
 NA["C17"] = "decided by third-party Pygments lexers (C regex engine) and linecache; cannot be executed symbolically (DESIGN.md 6)"
